@@ -14,10 +14,10 @@ def _streams(spec):
 
 PROPS = {
     "C05": {
-        "streams": _streams([("idl", 12000, 900000), ("idlname", 3000, 200000)]),
-        "rule": "bounded-exhaustive syntax trees (all types up to 3 nodes in every member position, all member-kind sequences up to length 3) x layout pool (every atom: space, tab, CR, LF, CRLF, '# text', '#text', '#', '# ', comment with CRLF, with '#', with non-UTF-8 bytes; in every gap class G0-G11; documentation blocks above members) plus random larger trees x random layouts (CRLF files, final comment without newline); non-trivial = tree with at least 3 type nodes. Spec decisions of the oracle (harness/idlgen.go docAbove): (1) a member's expected Doc is the block of whole-line comments directly above the line on which its keyword stands, also when the keyword is not the first token on that line (literal reading of the property; matches idl.go); (2) empty comment lines at the top of a block are dropped, because the newline separator is written only once something was collected (as idl.go does)",
+        "streams": _streams([("idl", 20000, 900000), ("idlname", 3000, 200000)]),
+        "rule": "bounded-exhaustive syntax trees (all types up to 3 nodes in every member position, all member-kind sequences up to length 3) x layout pool (every atom: space, tab, CR, LF, CRLF, '# text', '#text', '#', '# ', comment with CRLF, with '#', with non-UTF-8 bytes; in every gap class G0-G11; documentation blocks above members and between an error's name and its parameter list; members sharing a line, directly behind the previous member and behind an error without parameters; every end of the text - nothing, blanks, line break, comment, a last comment without newline - also behind an error without parameters) plus random larger trees x random layouts (CRLF files, final comment without newline); non-trivial = tree with at least 3 type nodes. Spec decisions of the oracle (harness/idlgen.go docAbove): (1) a member's expected Doc is the block of whole-line comments directly above the line on which its keyword stands, also when the keyword is not the first token on that line (literal reading of the property; matches idl.go); (2) empty comment lines at the top of a block are dropped, because the newline separator is written only once something was collected (as idl.go does)",
         "trusted_base": IDL_TB + ["the generator's independent definition of a member's documentation (comment block above the keyword line) and of the layouts inside the grammar (harness/idlgen.go)"],
-        "assumptions": ["layouts in the two classes tagged g6=nl|cr|comment and g3err=inline are known findings (known_findings.txt)"],
+        "assumptions": [],
     },
     "C06": {
         "streams": _streams([("idlmut", 90000, 1400000), ("idltot", 12000, 200000), ("idlname", 2000, 50000)]),
